@@ -1,4 +1,586 @@
-//! stub
+//! Program-level CFF / CFF2 generators: tables assembled from raw bytes whose
+//! charstrings come from a Type 2 operator grammar biased to subroutine
+//! recursion (callsubr / callgsubr depth), huge operand stacks, blend / vsindex,
+//! hint-mask edge cases, seac-like endchar and extreme operands; private DICT
+//! hint parameters at extremes.
+
+use crate::drive::{self, exec_case, hint_group_name, FontCase, GroupSpec};
+use crate::ttgen::TtFont;
 use crate::Items;
-use vf_core::Ctx;
-pub fn sec_cff(_ctx: &mut Ctx, _items: &mut Items) {}
+use vf_core::gen::{split_tables, build_sfnt};
+use vf_core::{fnv64, Ctx, Rng};
+
+fn index(items: &[Vec<u8>], v2: bool, off_size: u8) -> Vec<u8> {
+    let mut out = vec![];
+    if v2 {
+        out.extend_from_slice(&(items.len() as u32).to_be_bytes());
+    } else {
+        out.extend_from_slice(&(items.len() as u16).to_be_bytes());
+    }
+    if items.is_empty() {
+        return out;
+    }
+    out.push(off_size);
+    let mut off = 1u32;
+    let put = |out: &mut Vec<u8>, v: u32| {
+        let b = v.to_be_bytes();
+        out.extend_from_slice(&b[4 - off_size as usize..]);
+    };
+    put(&mut out, off);
+    for it in items {
+        off += it.len() as u32;
+        put(&mut out, off);
+    }
+    for it in items {
+        out.extend_from_slice(it);
+    }
+    out
+}
+
+/// DICT integer, fixed 5-byte form.
+fn int5(v: i32) -> Vec<u8> {
+    let mut o = vec![29];
+    o.extend_from_slice(&v.to_be_bytes());
+    o
+}
+
+/// Charstring number encodings.
+pub fn cs_num(out: &mut Vec<u8>, v: i32) {
+    if (-107..=107).contains(&v) {
+        out.push((v + 139) as u8);
+    } else if (108..=1131).contains(&v) {
+        let w = v - 108;
+        out.push((w / 256 + 247) as u8);
+        out.push((w % 256) as u8);
+    } else if (-1131..=-108).contains(&v) {
+        let w = -v - 108;
+        out.push((w / 256 + 251) as u8);
+        out.push((w % 256) as u8);
+    } else if (-32768..=32767).contains(&v) {
+        out.push(28);
+        out.extend_from_slice(&(v as i16).to_be_bytes());
+    } else {
+        out.push(255);
+        out.extend_from_slice(&v.to_be_bytes());
+    }
+}
+
+pub fn cs_fixed(out: &mut Vec<u8>, bits: i32) {
+    out.push(255);
+    out.extend_from_slice(&bits.to_be_bytes());
+}
+
+fn bias(n: usize) -> i32 {
+    if n < 1240 {
+        107
+    } else if n < 33900 {
+        1131
+    } else {
+        32768
+    }
+}
+
+pub struct CsEnv {
+    pub n_local: usize,
+    pub n_global: usize,
+    pub cff2: bool,
+    pub n_regions: usize,
+}
+
+fn operand(rng: &mut Rng) -> i32 {
+    *rng.pick(&[0, 1, -1, 10, 50, 100, -100, 107, 108, -108, 1131, 1132, 32767, -32768, 500, 250, 3])
+}
+
+fn push_operands(out: &mut Vec<u8>, rng: &mut Rng, k: usize) {
+    for _ in 0..k {
+        if rng.chance(1, 12) {
+            cs_fixed(out, *rng.pick(&[i32::MAX, i32::MIN, 0x7FFF_0000u32 as i32, 0x8000_0000u32 as i32, 1, -1, 0x0001_0000, 0xFFFF]));
+        } else {
+            cs_num(out, operand(rng));
+        }
+    }
+}
+
+/// One production of the Type 2 grammar.
+pub fn cs_emit(out: &mut Vec<u8>, rng: &mut Rng, env: &CsEnv, used: &mut [u32; 64]) {
+    let r = rng.usize(30);
+    used[r.min(63)] += 1;
+    match r {
+        0 => {
+            push_operands(out, rng, 2);
+            out.push(21); // rmoveto
+        }
+        1 => {
+            push_operands(out, rng, 1);
+            out.push(if rng.bool() { 22 } else { 4 });
+        }
+        2 => {
+            { let k = 2 * (1 + rng.usize(4)); push_operands(out, rng, k); }
+            out.push(5); // rlineto
+        }
+        3 => {
+            { let k = 1 + rng.usize(5); push_operands(out, rng, k); }
+            out.push(if rng.bool() { 6 } else { 7 });
+        }
+        4 => {
+            { let k = 6 * (1 + rng.usize(3)); push_operands(out, rng, k); }
+            out.push(8); // rrcurveto
+        }
+        5 => {
+            { let k = 4 + rng.usize(9); push_operands(out, rng, k); }
+            out.push(*rng.pick(&[24u8, 25, 26, 27, 30, 31]));
+        }
+        6 => {
+            // flex family
+            let (n, op) = *rng.pick(&[(7usize, 34u8), (13, 35), (9, 36), (11, 37)]);
+            let k = if rng.chance(1, 4) { rng.usize(14) } else { n };
+            push_operands(out, rng, k);
+            out.push(12);
+            out.push(op);
+        }
+        7 => {
+            // stems + hintmask / cntrmask with right / wrong mask length
+            let pairs = *rng.pick(&[0usize, 1, 2, 4, 8, 48, 49, 96, 97, 200]);
+            push_operands(out, rng, (2 * pairs).min(400));
+            out.push(*rng.pick(&[1u8, 3, 18, 23]));
+            if rng.bool() {
+                out.push(if rng.bool() { 19 } else { 20 });
+                let need = pairs.div_ceil(8);
+                let k = *rng.pick(&[need, need, need.saturating_sub(1), need + 1, 0]);
+                out.extend(rng.bytes(k.min(40)));
+            }
+        }
+        8 => {
+            // hintmask with operands on the stack (implicit vstem)
+            { let k = 2 * rng.usize(5); push_operands(out, rng, k); }
+            out.push(19);
+            { let k = rng.usize(3); out.extend(rng.bytes(k)); }
+        }
+        9 => {
+            // callsubr
+            let n = env.n_local;
+            let rnd = rng.below(n.max(1) as u64) as i32;
+            let i = *rng.pick(&[0i32, 1, n as i32 - 1, n as i32, -1, 32767, rnd]);
+            cs_num(out, i - bias(n));
+            out.push(10);
+        }
+        10 => {
+            let n = env.n_global;
+            let rnd = rng.below(n.max(1) as u64) as i32;
+            let i = *rng.pick(&[0i32, 1, n as i32 - 1, n as i32, -1, 32767, rnd]);
+            cs_num(out, i - bias(n));
+            out.push(29);
+        }
+        11 => {
+            out.push(11); // return (out of place at top level / illegal in CFF2)
+        }
+        12 => {
+            // huge operand stack
+            let k = *rng.pick(&[48usize, 96, 192, 512, 513, 514, 600]);
+            for i in 0..k {
+                cs_num(out, (i % 200) as i32);
+            }
+            if rng.bool() {
+                out.push(*rng.pick(&[5u8, 8, 1, 21, 16]));
+            }
+        }
+        13 => {
+            // blend (CFF2) / or in CFF1 an invalid operator
+            let n = *rng.pick(&[0i32, 1, 2, 3, 100, 513, -1, 32767]);
+            let k = env.n_regions;
+            let cnt = (n.clamp(0, 6) as usize) * (k + 1);
+            let cnt = if rng.chance(1, 4) { rng.usize(cnt + 2) } else { cnt };
+            push_operands(out, rng, cnt);
+            cs_num(out, n);
+            out.push(16);
+        }
+        14 => {
+            // vsindex
+            cs_num(out, *rng.pick(&[0, 1, 2, 255, -1, 32767, 65535]));
+            out.push(15);
+        }
+        15 => {
+            // arithmetic / storage operators of CFF1 (reserved in CFF2)
+            { let k = rng.usize(4); push_operands(out, rng, k); }
+            out.push(12);
+            out.push(*rng.pick(&[3u8, 4, 5, 9, 10, 11, 12, 14, 15, 18, 20, 21, 22, 23, 24, 26, 27, 28, 29, 30]));
+        }
+        16 => {
+            // seac-like endchar: adx ady bchar achar endchar
+            if rng.bool() {
+                cs_num(out, operand(rng)); // width
+            }
+            cs_num(out, operand(rng));
+            cs_num(out, operand(rng));
+            cs_num(out, *rng.pick(&[0, 1, 65, 255, 256, -1]));
+            cs_num(out, *rng.pick(&[0, 1, 66, 255, 256, -1]));
+            out.push(14);
+        }
+        17 => {
+            out.push(14); // endchar
+        }
+        18 => {
+            // reserved operators and truncated number encodings
+            match rng.usize(5) {
+                0 => out.push(*rng.pick(&[0u8, 2, 9, 13, 17])),
+                1 => out.push(28),
+                2 => {
+                    out.push(255);
+                    { let k = rng.usize(4); out.extend(rng.bytes(k)); }
+                }
+                3 => {
+                    out.push(12);
+                }
+                _ => {
+                    out.push(12);
+                    out.push(*rng.pick(&[0u8, 1, 2, 6, 7, 8, 13, 16, 17, 19, 25, 31, 33, 38, 255]));
+                }
+            }
+        }
+        19 => {
+            // operator with too few operands
+            out.push(*rng.pick(&[21u8, 22, 4, 5, 8, 24, 25, 26, 27, 30, 31, 10, 29, 16, 15]));
+        }
+        20 => {
+            // extreme coordinates accumulate: repeated big moves
+            for _ in 0..1 + rng.usize(6) {
+                cs_fixed(out, *rng.pick(&[i32::MAX, i32::MIN, 0x7FFF_FFFF, 0x4000_0000]));
+                cs_fixed(out, *rng.pick(&[i32::MAX, i32::MIN, 0x7FFF_FFFF, 0x4000_0000]));
+                out.push(21);
+            }
+        }
+        21 => {
+            { let k = 1 + rng.usize(5); out.extend(rng.bytes(k)); }
+        }
+        _ => {
+            // well-formed filler: a small closed box
+            cs_num(out, 10);
+            cs_num(out, 10);
+            out.push(21);
+            cs_num(out, 100);
+            out.push(6);
+            cs_num(out, 100);
+            out.push(7);
+            cs_num(out, -100);
+            out.push(6);
+        }
+    }
+}
+
+pub fn gen_charstring(rng: &mut Rng, env: &CsEnv, items: usize, used: &mut [u32; 64], end: bool) -> Vec<u8> {
+    let mut out = vec![];
+    if !env.cff2 && rng.bool() {
+        cs_num(&mut out, operand(rng)); // width
+    }
+    for _ in 0..rng.usize(items + 1) {
+        cs_emit(&mut out, rng, env, used);
+    }
+    if end && !env.cff2 && !rng.chance(1, 10) {
+        out.push(14);
+    }
+    out
+}
+
+/// Subroutine sets with recursion shapes.
+fn gen_subrs(rng: &mut Rng, env: &CsEnv, n: usize, global: bool, used: &mut [u32; 64], shape: &mut String) -> Vec<Vec<u8>> {
+    let style = rng.usize(5);
+    shape.push_str(&format!("{}subrs:{};", if global { "g" } else { "l" }, ["random", "self-recursion", "mutual-recursion", "chain", "cross-local-global"][style]));
+    let call = |out: &mut Vec<u8>, i: usize, to_global: bool, n_target: usize| {
+        cs_num(out, i as i32 - bias(n_target));
+        out.push(if to_global { 29 } else { 10 });
+    };
+    let mut v = vec![];
+    for i in 0..n {
+        let mut s = vec![];
+        match style {
+            1 if i == 0 => call(&mut s, 0, global, n),
+            2 if i < 2 => call(&mut s, 1 - i, global, n),
+            3 => {
+                // i -> i+1 -> ... depth n (limit is 10)
+                if i + 1 < n {
+                    call(&mut s, i + 1, global, n);
+                } else {
+                    s.extend(gen_charstring(rng, env, 2, used, false));
+                }
+            }
+            4 => {
+                // local i calls global i and vice versa
+                let other_n = if global { env.n_local } else { env.n_global };
+                if other_n > 0 {
+                    call(&mut s, i % other_n, !global, other_n);
+                }
+            }
+            _ => s.extend(gen_charstring(rng, env, 3, used, false)),
+        }
+        if !env.cff2 && !rng.chance(1, 8) {
+            s.push(11);
+        }
+        v.push(s);
+    }
+    v
+}
+
+fn private_dict(rng: &mut Rng, subrs_off: i32, cff2: bool, shape: &mut String) -> Vec<u8> {
+    let mut d = vec![];
+    let arr = |d: &mut Vec<u8>, rng: &mut Rng, n: usize, op: &[u8]| {
+        for _ in 0..n {
+            d.extend(int5(*rng.pick(&[0, 1, -1, 10, -10, 500, 700, 32767, -32768, i32::MAX, i32::MIN, 250])));
+        }
+        d.extend_from_slice(op);
+    };
+    if rng.chance(2, 3) {
+        shape.push_str("private:hints;");
+        { let k = *rng.pick(&[0usize, 2, 4, 14, 15, 16, 40]); arr(&mut d, rng, k, &[6]); } // BlueValues
+        { let k = *rng.pick(&[0usize, 2, 10, 11, 12]); arr(&mut d, rng, k, &[7]); } // OtherBlues
+        if rng.bool() {
+            { let k = *rng.pick(&[0usize, 2, 14, 15]); arr(&mut d, rng, k, &[8]); }
+            { let k = *rng.pick(&[0usize, 2, 10, 11]); arr(&mut d, rng, k, &[9]); }
+        }
+        // BlueScale (real), BlueShift, BlueFuzz
+        if rng.bool() {
+            // real number 0.039625 = 1e 0a 03 96 25 ff ; or extremes
+            let reals: [Vec<u8>; 5] = [vec![30, 0x0a, 0x03, 0x96, 0x25, 0xff], vec![30, 0x9b, 0x99, 0xff], vec![30, 0xe9, 0xc9, 0x9f], vec![30, 0x0f], vec![30, 0x1c, 0x99, 0xff]];
+            let ri = rng.usize(reals.len());
+            d.extend_from_slice(&reals[ri]);
+            d.extend_from_slice(&[12, 9]);
+        }
+        arr(&mut d, rng, 1, &[12, 10]);
+        arr(&mut d, rng, 1, &[12, 11]);
+        arr(&mut d, rng, 1, &[10]);
+        arr(&mut d, rng, 1, &[11]);
+        if rng.bool() {
+            arr(&mut d, rng, 1, &[12, 17]);
+        }
+    }
+    if cff2 && rng.bool() {
+        d.extend(int5(*rng.pick(&[0, 1, 2, 65535, -1])));
+        d.push(22); // vsindex
+    }
+    if cff2 && rng.chance(1, 3) {
+        // blend inside the private dict
+        for _ in 0..3 {
+            d.extend(int5(10));
+        }
+        d.extend(int5(1));
+        d.push(23);
+        d.push(10);
+    }
+    d.extend(int5(subrs_off));
+    d.push(19);
+    d
+}
+
+fn var_store(rng: &mut Rng, axis_count: u16, n_regions: usize) -> Vec<u8> {
+    let mut ivs = vec![];
+    let n_data = 1 + rng.usize(2);
+    ivs.extend_from_slice(&1u16.to_be_bytes());
+    let header = 8 + 4 * n_data;
+    ivs.extend_from_slice(&(header as u32).to_be_bytes());
+    ivs.extend_from_slice(&(n_data as u16).to_be_bytes());
+    let region_list_len = 4 + n_regions * axis_count as usize * 6;
+    let mut data_off = header + region_list_len;
+    let mut datas = vec![];
+    for _ in 0..n_data {
+        let mut d = vec![];
+        d.extend_from_slice(&0u16.to_be_bytes());
+        d.extend_from_slice(&0u16.to_be_bytes());
+        let k = if rng.chance(1, 5) { rng.usize(n_regions + 3) } else { n_regions };
+        d.extend_from_slice(&(k as u16).to_be_bytes());
+        for i in 0..k {
+            let ri = if rng.chance(1, 10) { 0xFFFF } else { (i % n_regions.max(1)) as u16 };
+            d.extend_from_slice(&ri.to_be_bytes());
+        }
+        ivs.extend_from_slice(&(data_off as u32).to_be_bytes());
+        data_off += d.len();
+        datas.push(d);
+    }
+    ivs.extend_from_slice(&axis_count.to_be_bytes());
+    ivs.extend_from_slice(&(n_regions as u16).to_be_bytes());
+    for _ in 0..n_regions * axis_count as usize {
+        for _ in 0..3 {
+            let v: i16 = *rng.pick(&[0, 0x4000, -0x4000, 0x2000, i16::MAX, i16::MIN, 1]);
+            ivs.extend_from_slice(&v.to_be_bytes());
+        }
+    }
+    for d in datas {
+        ivs.extend(d);
+    }
+    let mut out = vec![];
+    out.extend_from_slice(&(ivs.len() as u16).to_be_bytes());
+    out.extend(ivs);
+    out
+}
+
+pub struct CffOut {
+    pub table: Vec<u8>,
+    pub n_glyphs: usize,
+    pub cff2: bool,
+    pub axis_count: u16,
+}
+
+pub fn gen_cff(rng: &mut Rng, cff2: bool, used: &mut [u32; 64], shape: &mut String) -> CffOut {
+    let axis_count: u16 = if cff2 { *rng.pick(&[0u16, 1, 2, 3]) } else { 0 };
+    let n_regions = if cff2 { *rng.pick(&[0usize, 1, 2, 3, 17]) } else { 0 };
+    let n_local = *rng.pick(&[0usize, 1, 3, 12, 13]);
+    let n_global = *rng.pick(&[0usize, 1, 3, 12]);
+    let env = CsEnv { n_local, n_global, cff2, n_regions };
+    let lsubrs = gen_subrs(rng, &env, n_local, false, used, shape);
+    let gsubrs = gen_subrs(rng, &env, n_global, true, used, shape);
+    let n_glyphs = 4 + rng.usize(3);
+    let mut charstrings = vec![];
+    for g in 0..n_glyphs {
+        if g == 0 {
+            charstrings.push(if cff2 { vec![] } else { vec![14] });
+        } else {
+            charstrings.push(gen_charstring(rng, &env, 6, used, true));
+        }
+    }
+    let off_size = *rng.pick(&[1u8, 2, 3, 4]);
+    let os = |items: &[Vec<u8>]| -> u8 {
+        let total: usize = items.iter().map(|i| i.len()).sum::<usize>() + 1;
+        if total > 0xFFFF {
+            4
+        } else if total > 0xFF {
+            off_size.max(2)
+        } else {
+            off_size
+        }
+    };
+    let gsubr_index = index(&gsubrs, cff2, os(&gsubrs));
+    let cs_index = index(&charstrings, cff2, os(&charstrings));
+    let lsubr_index = index(&lsubrs, cff2, os(&lsubrs));
+    let mut t = vec![];
+    if !cff2 {
+        t.extend_from_slice(&[1, 0, 4, 4]);
+        t.extend(index(&[b"A".to_vec()], false, 1));
+        // top dict: charstrings(17) + private(18), fixed 17 bytes
+        let top_len = 17usize;
+        let top_index_len = 2 + 1 + 2 + top_len;
+        let string_index = index(&[], false, 1);
+        let cs_off = t.len() + top_index_len + string_index.len() + gsubr_index.len();
+        let priv_off = cs_off + cs_index.len();
+        // private dict length depends on content: build with placeholder, then fix subrs offset
+        let mut sh = String::new();
+        let mut rng2 = rng.clone();
+        let pd0 = private_dict(&mut rng2, 0, false, &mut sh);
+        let pd = private_dict(rng, pd0.len() as i32, false, shape);
+        let mut top = vec![];
+        top.extend(int5(cs_off as i32));
+        top.push(17);
+        top.extend(int5(pd.len() as i32));
+        top.extend(int5(priv_off as i32));
+        top.push(18);
+        t.extend(index(&[top], false, 1));
+        t.extend(string_index);
+        t.extend(gsubr_index);
+        t.extend(cs_index);
+        t.extend(pd);
+        t.extend(lsubr_index);
+    } else {
+        let top_len = 19usize;
+        t.extend_from_slice(&[2, 0, 5]);
+        t.extend_from_slice(&(top_len as u16).to_be_bytes());
+        let cs_off = 5 + top_len + gsubr_index.len();
+        let fd_off = cs_off + cs_index.len();
+        // font dict: int5 size int5 off 18  = 11 bytes; FDArray INDEX (v2, offsize 1): 4 + 1 + 2 + 11 = 18
+        let fd_index_len = 18usize;
+        let priv_off = fd_off + fd_index_len;
+        let mut sh = String::new();
+        let mut rng2 = rng.clone();
+        let pd0 = private_dict(&mut rng2, 0, true, &mut sh);
+        let pd = private_dict(rng, pd0.len() as i32, true, shape);
+        let vs_off = priv_off + pd.len() + lsubr_index.len();
+        let mut top = vec![];
+        top.extend(int5(cs_off as i32));
+        top.push(17);
+        top.extend(int5(fd_off as i32));
+        top.extend_from_slice(&[12, 36]);
+        top.extend(int5(if n_regions > 0 || rng.bool() { vs_off as i32 } else { 0 }));
+        top.push(24);
+        debug_assert_eq!(top.len(), top_len);
+        t.extend(top);
+        t.extend(gsubr_index);
+        t.extend(cs_index);
+        let mut fd = vec![];
+        fd.extend(int5(pd.len() as i32));
+        fd.extend(int5(priv_off as i32));
+        fd.push(18);
+        t.extend(index(&[fd], true, 1));
+        t.extend(pd);
+        t.extend(lsubr_index);
+        t.extend(var_store(rng, axis_count, n_regions));
+    }
+    CffOut { table: t, n_glyphs, cff2, axis_count }
+}
+
+/// Wrap a CFF/CFF2 table into an OpenType font (head, maxp 0.5, hhea, hmtx, cmap, OS/2, post).
+pub fn cff_font(c: &CffOut, rng: &mut Rng) -> Vec<u8> {
+    let mut f = TtFont::default();
+    f.upem = *rng.pick(&[1000u16, 1000, 2048, 1, 65535]);
+    f.glyphs = vec![vec![]; c.n_glyphs];
+    let base = f.build();
+    let mut tables: Vec<([u8; 4], Vec<u8>)> = split_tables(&base).into_iter().filter(|(t, _)| !matches!(t, b"glyf" | b"loca")).collect();
+    for (t, d) in tables.iter_mut() {
+        if t == b"maxp" {
+            let mut m = vec![];
+            m.extend_from_slice(&0x00005000u32.to_be_bytes());
+            m.extend_from_slice(&(c.n_glyphs as u16).to_be_bytes());
+            *d = m;
+        }
+    }
+    tables.push((if c.cff2 { *b"CFF2" } else { *b"CFF " }, c.table.clone()));
+    build_sfnt(0x4F54544F, &tables)
+}
+
+pub fn sec_cff(ctx: &mut Ctx, items: &mut Items) {
+    let n = ctx.budget(28_000, 224_000);
+    let mut used = [0u32; 64];
+    for j in 0..n {
+        if !items.mine(ctx) {
+            continue;
+        }
+        let mut rng = Rng::derive(ctx.seed, "cffgen", j as u64);
+        let cff2 = j % 2 == 1;
+        let mut shape = String::from(if cff2 { "cff2;" } else { "cff1;" });
+        let c = gen_cff(&mut rng, cff2, &mut used, &mut shape);
+        let mut bytes = cff_font(&c, &mut rng);
+        ctx.count("charstring_programs_generated", c.n_glyphs as u64);
+        ctx.distinct("cff_tables", fnv64(&c.table));
+        ctx.label("cff_shapes", shape.trim_end_matches(';'));
+        if rng.chance(1, 5) {
+            let dir = vf_core::gen::parse_dir(&bytes, 0);
+            let mut p = vf_core::gen::Patcher::new();
+            let focus: &[u8; 4] = if cff2 { b"CFF2" } else { b"CFF " };
+            vf_core::gen::mutate_random(&mut bytes, &dir, &mut rng, &mut p, Some(focus));
+            shape.push_str(&format!("post-mutated{}", p.describe()));
+        }
+        let name = format!("cffgen#{}", j);
+        let cfg = rng.u64();
+        let cat = if cff2 { "cff2prog" } else { "cffprog" };
+        let fc = FontCase { name: &name, mutation: &shape, category: cat, bytes: &bytes };
+        let o = exec_case(ctx, &fc, &GroupSpec::new("open", 0, cfg), None);
+        if !o.opened {
+            ctx.count(&format!("fonts_failed_to_open:{}", cat), 1);
+            continue;
+        }
+        ctx.count(&format!("fonts_driven:{}", cat), 1);
+        let mut specs = vec![
+            GroupSpec::new("unhinted", 1, cfg),
+            GroupSpec::new(hint_group_name(0, rng.usize(drive::N_TARGETS)), 0, cfg),
+            GroupSpec::new(hint_group_name(3, rng.usize(drive::N_TARGETS)), 0, cfg),
+        ];
+        if rng.chance(1, 3) {
+            specs.push(GroupSpec::new(hint_group_name(1, rng.usize(drive::N_TARGETS)), 0, cfg));
+            specs.push(GroupSpec::new("helpers", 0, cfg));
+            specs.push(GroupSpec::new("meta", 0, cfg));
+        }
+        for spec in specs {
+            exec_case(ctx, &fc, &spec, None);
+        }
+    }
+    for (i, c) in used.iter().enumerate() {
+        if *c > 0 {
+            ctx.distinct("charstring_grammar_productions_used", i as u64);
+        }
+    }
+}
